@@ -104,7 +104,7 @@ Print Assumptions C12_fields_drops_fieldless_row_refuted.
 (** ... and in the default text mode a row WITHOUT fields prints as its line whatever the printer has seen before
     (fix for KF-56: the fallback used to depend on the printer's memory of earlier rows) *)
 Theorem C12_fieldless_row_is_its_line : forall st raw,
-  exists st', Display.format_record st (mkRec [] raw) = Ok (st', Str.trim_end raw) /\
+  exists st', Display.format_record st (mkRec [] raw) = Ok (st', Str.strip_eol raw) /\
               Display.rp_order st' = Display.rp_order st ++ [] /\ Display.rp_term st' = Display.rp_term st.
 Proof.
   intros st raw. unfold Display.format_record. cbn [rdata rraw].
